@@ -227,6 +227,26 @@ var CaseTimeout = 600 * time.Second
 // Exec interprets one case: in the worker subprocess, or in-process when
 // VERIF_WSX_INPROC=1.
 func Exec(kind string, c any) *core.Violation {
+	v := exec1(kind, c)
+	if v != nil && strings.HasPrefix(v.Sig, "harness|") {
+		// the fixture itself failed (could not listen / dial / start a worker): not a verdict
+		// about Havoc.  Try once more on a fresh worker; if it fails again give up as
+		// inconclusive (exit status without a violation record), never as a violation.
+		fmt.Fprintf(os.Stderr, "wsx: harness failure [%s] %s -- retrying on a fresh worker\n", v.Sig, v.Msg)
+		stopWorker()
+		Discard()
+		v = exec1(kind, c)
+		if v != nil && strings.HasPrefix(v.Sig, "harness|") {
+			fmt.Fprintf(os.Stderr, "wsx: harness failure persists [%s] %s -- giving up (inconclusive)\n", v.Sig, v.Msg)
+			stopWorker()
+			Cleanup()
+			os.Exit(2)
+		}
+	}
+	return v
+}
+
+func exec1(kind string, c any) *core.Violation {
 	raw, err := json.Marshal(c)
 	if err != nil {
 		return core.V("harness|marshal", "%v", err)
